@@ -76,6 +76,13 @@ class Resolver:
         return alias["name"]
 
 
+def _now(r: Any) -> Any:
+    """AsyncDAG flavour: executors and setup() return coroutines."""
+    import asyncio
+
+    return asyncio.run(r) if asyncio.iscoroutine(r) else r
+
+
 def closure(M: Model, R: Optional[List[str]], X: Optional[List[str]], T: Optional[List[str]]) -> Tuple[Set[str], Set[str]]:
     """(Exec, part selected by R)."""
     cur = set(M.sites)
@@ -151,7 +158,7 @@ def one_selection(res: CaseResult, P: Dict[str, Any], M: Model, b: prog.Built, r
             ex = sched.Exec("free")
             try:
                 with ex:
-                    exr()
+                    _now(exr())
                 res.viol("error-not-raised", f"selection of class {expect_error} was accepted and ran {sorted(e['site'] for e in ex.events if e['k'] == 'ENTER')}" + tag)
             except ValueError:
                 if any(e["k"] == "ENTER" for e in ex.events):
@@ -178,7 +185,7 @@ def one_selection(res: CaseResult, P: Dict[str, Any], M: Model, b: prog.Built, r
     ex = sched.Exec("free")
     try:
         with ex:
-            val = exr()
+            val = _now(exr())
     except BaseException as e:  # noqa: BLE001
         if isinstance(e, KeyboardInterrupt):
             raise
@@ -204,9 +211,9 @@ def run_case(case: Dict[str, Any]) -> CaseResult:
     M.done_setup = set()  # type: ignore[attr-defined]
 
     def fresh() -> Tuple[prog.Built, Resolver]:
-        b = prog.build(P, mc=case.get("mc", 2))
+        b = prog.build(P, mc=case.get("mc", 2), is_async=bool(case.get("async")))
         if case.get("pre_setup"):
-            b.dag.setup()
+            _now(b.dag.setup())
             M.done_setup = {s for s in M.sites if M.spec[s].get("setup")}  # type: ignore[attr-defined]
         return b, Resolver(P, b)
 
@@ -252,6 +259,7 @@ def run_case(case: Dict[str, Any]) -> CaseResult:
     res.cls(*["alias:" + f for f in forms])
     if case.get("pre_setup"):
         res.cls("setup-run-before")
+    res.cls("async" if case.get("async") else "sync")
     res.note = {"classes": dict(Counter(classes))}
     return res
 
@@ -263,7 +271,8 @@ def cases(draw: Any, tier: str) -> Dict[str, Any]:
                            n_setup=draw(st.integers(0, 2)), mark_roots=False, prio_range=(-1, 2),
                            index_rate=0.3, dep_kinds=("pos", "kw"), short_name_rate=0.2, ret_index_rate=0.4))
     sites = [s["site"] for s in P["body"]]
-    case: Dict[str, Any] = {"prog": P, "mc": draw(st.integers(1, 3)), "pre_setup": draw(st.booleans())}
+    case: Dict[str, Any] = {"prog": P, "mc": draw(st.integers(1, 3)), "pre_setup": draw(st.booleans()),
+                            "async": draw(st.sampled_from([False, False, True]))}
     if exhaustive:
         case["exhaustive"] = True
         return case
